@@ -130,6 +130,37 @@ def _sc_setup(case, mode):
     SC.setup(case, mode)
 
 
+def _rm_setup(case, mode):
+    from harness import refmarkers as RM
+    RM.setup(case, mode)
+
+
+def h_marker_stage_faults(ctx, case):
+    """reference markers: an abnormal worker => the call raises and no
+    file appears at the requested output location (the table is
+    assembled in scratch space and moved into place last)"""
+    import os
+    from harness import refmarkers as RM
+    res = RM.run_stage(ctx, case, faults=True)
+    abnormal = [m for m in res['outcome'].values() if m != 'ok']
+    ctx.note('outcome', dict(res['outcome']))
+    if abnormal:
+        ctx.reach('worker failed')
+        ctx.check(res['raised'] is not None,
+                  f'a worker terminated abnormally ({abnormal}) but the '
+                  'call returned normally')
+        ctx.check(not os.path.exists(res['out']),
+                  'no file at the requested output location after a '
+                  'failed worker')
+    else:
+        ctx.reach('all workers ok')
+        ctx.check(res['raised'] is None, 'no worker failed => success: '
+                  + str(res['raised'])[:80])
+        if res['raised'] is None:
+            RM.check_tables(ctx, res)
+    return 'failed' if abnormal else 'ok'
+
+
 def _rs_setup(case, mode):
     from harness import refstats as RS
     RS.setup(case, mode)
@@ -183,6 +214,22 @@ HARNESSES = [
                    'worker (any worker, modes before/killed/after/raise), '
                    'every completion order within K',
             expect_reach=['worker failed', 'all workers ok'], split=16),
+    Harness('reference_marker_worker_faults', h_marker_stage_faults,
+            setup=_rm_setup,
+            cases=[{'vary': [], 'K': 0, 'fixed': True}],
+            thorough_cases=[{'vary': ['c0'], 'K': 1, 'fixed': True}],
+            funcs=['markers.find_markers_for_all_taxonomy_pairs',
+                   'create_sparse_by_pair_marker_file',
+                   '_find_markers_worker', '_merge_sparse_by_pair_files',
+                   'add_sparse_by_gene_markers_to_file',
+                   'csc_to_csr_parallel.transpose_sparse_matrix_on_disk_v2',
+                   'multiprocessing_utils.winnow_process_dict / _list'],
+            stubs=['multiprocessing -> scheduler + fault model in the '
+                   'marker workers and in the parallel transposition'],
+            bounds='real files (5 clusters, 10 pairs => two marker '
+                   'workers; 1-3 transposition workers); one abnormal '
+                   'worker of either pool, every failure mode',
+            expect_reach=['worker failed', 'all workers ok'], split=32),
     Harness('statistics_worker_faults', h_stats_faults, setup=_rs_setup,
             cases=[{'cells': 2, 'genes': 1, 'clusters': 1, 'via_tree': True,
                     'max_proc': 3},
